@@ -981,6 +981,65 @@ func runC17(c *Ctx) {
 						break
 					}
 				}
+				// EXECUTE / BATCH children with prepared ids that are not 16 bytes long (the backend knows them), answered with
+				// the errors that make the proxy look the id up again
+				if p != nil {
+					for _, idLen := range []int{0, 1, 5, 15, 17, 40} {
+						for oi, mk := range []func(tok string) fakecass.Outcome{
+							func(tok string) fakecass.Outcome { return fakecass.Err("Overloaded", &message.Overloaded{ErrorMessage: tok}) },
+							func(tok string) fakecass.Outcome {
+								return fakecass.Err("WriteTimeout", &message.WriteTimeout{ErrorMessage: tok, Consistency: primitive.ConsistencyLevelOne, BlockFor: 1, WriteType: primitive.WriteTypeBatchLog})
+							},
+							func(tok string) fakecass.Outcome { o := fakecass.DropBefore(); o.Name = "ConnLost"; return o },
+						} {
+							kind := fmt.Sprintf("reply/error-to-prepared-id-of-%d-bytes/%d", idLen, oi)
+							c.Step("c17 backend hostility maxv=%s %s", maxv, kind)
+							id := bytes.Repeat([]byte{0xde}, idLen)
+							for _, h := range p.cluster.Hosts {
+								h.Learn(hex.EncodeToString(id), idemPrepared)
+							}
+							mk := mk
+							p.cluster.SetScript(func(a *fakecass.Arrival) fakecass.Outcome {
+								if strings.HasPrefix(a.Token, "T0000000bad") {
+									return mk(a.Token)
+								}
+								return fakecass.Outcome{}
+							})
+							if cl, err := rawcql.Dial(p.addr, primitive.ProtocolVersion4, nil); err == nil {
+								if cl.Handshake("", 5*time.Second) == nil {
+									tok := fmt.Sprintf("T0000000bad%06d", rng.Intn(999999))
+									ex := &message.Execute{QueryId: id, Options: &message.QueryOptions{Consistency: primitive.ConsistencyLevelOne, PositionalValues: []*primitive.Value{primitive.NewValue([]byte(tok))}}}
+									_, _ = cl.Call(1, ex, 500*time.Millisecond)
+									tok2 := fmt.Sprintf("T0000000bad%06d", rng.Intn(999999))
+									bt := &message.Batch{Type: primitive.BatchTypeLogged, Consistency: primitive.ConsistencyLevelOne, Children: []*message.BatchChild{
+										{Query: fmt.Sprintf(idemInsert, tok2)}, {Id: id, Values: []*primitive.Value{primitive.NewValue([]byte("v"))}}}}
+									_, _ = cl.Call(2, bt, 500*time.Millisecond)
+								}
+								cl.Close()
+							}
+							r.Obs("backend_hostilities", 1)
+							r.Eval(1)
+							r.NonTrivial("backend/" + maxv + "/" + kind)
+							if why := p.canary(); why != "" {
+								c17Crash(r, p, "backend-reply", []string{kind}, why)
+								p.stop()
+								if p, err = c17Start(c, maxv, "backend"); err != nil {
+									r.Inconc("c17: cannot restart the proxy: " + err.Error())
+									p = nil
+									break
+								}
+							} else {
+								r.Obs("canary_rounds_ok", 1)
+							}
+						}
+						if p == nil {
+							break
+						}
+					}
+					if p != nil {
+						p.cluster.SetScript(nil)
+					}
+				}
 				// the proxy's own re-PREPARE (sent after an UNPREPARED) is answered with UNPREPARED again
 				if p != nil {
 					kind := "reply/unprepared-answer-to-re-prepare"
@@ -1024,8 +1083,17 @@ func runC17(c *Ctx) {
 				}
 				// garbage and unexpected frames on the CONTROL connection and bad heartbeat replies
 				if p != nil {
-					for _, kind := range []string{"control/garbage-event", "control/event-unknown-type", "control/response-on-unknown-stream", "control/random-bytes", "heartbeat/error-reply", "heartbeat/result-reply", "heartbeat/garbage-reply"} {
+					for _, kind := range []string{"control/garbage-event", "control/event-unknown-type", "control/response-on-unknown-stream", "control/random-bytes", "heartbeat/error-reply", "heartbeat/result-reply", "heartbeat/garbage-reply", "heartbeat/unprepared-reply-with-cached-id"} {
 						c.Step("c17 control hostility maxv=%s %s", maxv, kind)
+						if kind == "heartbeat/unprepared-reply-with-cached-id" {
+							// the id named by the UNPREPARED answer is one the proxy has in its prepared cache
+							if pcl, err := rawcql.Dial(p.addr, primitive.ProtocolVersion4, nil); err == nil {
+								if pcl.Handshake("", 5*time.Second) == nil {
+									_, _ = pcl.Call(1, &message.Prepare{Query: idemPrepared}, 5*time.Second)
+								}
+								pcl.Close()
+							}
+						}
 						if strings.HasPrefix(kind, "heartbeat/") {
 							k := kind
 							p.cluster.Intercept = func(x *fakecass.Conn, hdr *frame.Header, raw []byte) bool {
@@ -1037,6 +1105,10 @@ func runC17(c *Ctx) {
 									_ = x.WriteRaw(respFrame(hdr.Version, 0, hdr.StreamId, 0, []byte{0, 0, 0, 0, 0, 1, 'x'}), k)
 								case "heartbeat/result-reply":
 									_ = x.WriteRaw(respFrame(hdr.Version, 0, hdr.StreamId, 8, []byte{0, 0, 0, 1}), k)
+								case "heartbeat/unprepared-reply-with-cached-id":
+									id := fakecass.PreparedID("", idemPrepared)
+									body := append([]byte{0, 0, 0x25, 0, 0, 1, 'x', 0, byte(len(id))}, id...)
+									_ = x.WriteRaw(respFrame(hdr.Version, 0, hdr.StreamId, 0, body), k)
 								default:
 									_ = x.WriteRaw(respFrame(hdr.Version, 0, hdr.StreamId, 6, []byte{0xff, 0xff, 0xff}), k)
 								}
